@@ -34,7 +34,7 @@ struct Env {
 fn env() -> &'static Env {
     static E: OnceLock<Env> = OnceLock::new();
     E.get_or_init(|| {
-        let xdg = PathBuf::from(format!("{}/build/xdg/C19-{}", crate::runner::VERIF, std::process::id()));
+        let xdg = PathBuf::from(format!("{}/build/xdg/C19-{}", crate::runner::verif_root(), std::process::id()));
         let _ = std::fs::remove_dir_all(&xdg);
         std::fs::create_dir_all(&xdg).expect("private data dir");
         std::env::set_var("XDG_DATA_HOME", &xdg);
